@@ -1,5 +1,6 @@
 /- Line-protocol driver: one JSON object per line in, one per line out, same order. -/
 import Driver.TextOps
+import Driver.ParseOps
 open Lean
 
 def handleLine (line : String) : String :=
@@ -12,6 +13,8 @@ def handleLine (line : String) : String :=
       let r : Except String Json :=
         if op.startsWith "tb." || op.startsWith "ind." || op.startsWith "py." ||
            op == "chunk" || op == "cond_chunk" || op.startsWith "comment." then TextOps.handle op j
+        else if ["parse", "c05", "c16", "sro", "find_fqn", "find_any", "ids_t", "ids_notations"].contains op then
+          ParseOps.handle op j
         else .error s!"unknown op {op}"
       match r with
       | .ok out => out.compress
